@@ -937,3 +937,9 @@ SPECS["C14"]["theorems"] += [
 ]
 SPECS["C14"]["level_text"] += (" Props/C14A (track apigaps): the _or_die constructors (ops new_or_die / now_or_die of the vtime family) return a value "
     "exactly inside the same window and die everywhere else; never a VouchedTime outside the rule.")
+# hcobs::find_stuff_sequence called directly (op `find` of hcobs_enc)
+SPECS["C02"]["lean_modules"] += ["Woodpile.Props.C02A"]
+SPECS["C02"]["theorems"] += ["Woodpile.Props.C02A.find_stuff_sequence_spec"]
+SPECS["C02"]["level_text"] += (" Props/C02A (track apigaps): the public hcobs::find_stuff_sequence is exercised on its own (op `find`: FE/FD runs, a pair at every "
+    "position incl. the last two bytes) against Spec.findStuff, characterised exactly (first occurrence / none). The production Encoder is also fed through its "
+    "ZeroCopySink impl behind `dyn` (methods S / T of hcobs_enc, model = the borrow / copy methods).")
